@@ -8,6 +8,7 @@ package c15
 
 import (
 	"fmt"
+	"sort"
 	"strings"
 
 	"pgregory.net/rapid"
@@ -575,4 +576,112 @@ func (p *pool) zeroSizeReceiverType() *ty {
 	t.feats["fmt_interface_method"] = true
 	t.solo = true
 	return t
+}
+
+// ---- DeepEqual over pointer graphs -------------------------------------------------------------
+
+const graphTypes = `
+type DH struct {
+	ID  int
+	Tag string
+}
+
+type DR struct {
+	Hdr  DH // first field: &r.Hdr and r share an address
+	Body string
+	Arr  [3]int
+	Next *DR
+	H    *DH
+	E    *int
+	M    map[string]*DR
+	S    []*DR
+	I    any
+}
+
+type DRootA struct { // interior pointers are visited before the pointer to the enclosing object
+	A *DH
+	C *int
+	D *[3]int
+	B *DR
+	L []*DR
+}
+
+type DRootB struct { // enclosing object first
+	B *DR
+	A *DH
+	D *[3]int
+	C *int
+}
+`
+
+// genGraph emits a builder of a small heap of DR nodes with drawn links (cycles, sharing, interior pointers to first
+// and later fields / array elements, pointers inside maps, slices and interfaces) whose variant v >= 1 differs from
+// variant 0 in exactly one drawn place, and the DeepEqual probes over it.
+func genGraph(t *rapid.T, u int) (decl, body string, feats []string) {
+	var b strings.Builder
+	k := rapid.IntRange(1, 5).Draw(t, "gnodes")
+	fmt.Fprintf(&b, "func buildG%d(variant int) (DRootA, DRootB) {\n\tn := make([]*DR, %d)\n\tfor i := range n {\n\t\tn[i] = &DR{Hdr: DH{i, \"t\"}, Body: \"b\", Arr: [3]int{i, i + 1, i + 2}}\n\t}\n", u, k)
+	fs := map[string]bool{}
+	nl := rapid.IntRange(0, 3*k).Draw(t, "glinks")
+	for l := 0; l < nl; l++ {
+		i, j := rapid.IntRange(0, k-1).Draw(t, "from"), rapid.IntRange(0, k-1).Draw(t, "to")
+		switch rapid.IntRange(0, 7).Draw(t, "linkkind") {
+		case 0, 1:
+			fmt.Fprintf(&b, "\tn[%d].Next = n[%d]\n", i, j)
+			if j <= i {
+				fs["deepequal_cycle"] = true
+			}
+		case 2:
+			fmt.Fprintf(&b, "\tn[%d].H = &n[%d].Hdr\n", i, j)
+			fs["deepequal_interior_pointer_first_field"] = true
+		case 3:
+			fmt.Fprintf(&b, "\tn[%d].E = &n[%d].Arr[%d]\n", i, j, rapid.IntRange(0, 2).Draw(t, "elem"))
+			fs["deepequal_interior_pointer_element"] = true
+		case 4:
+			fmt.Fprintf(&b, "\tn[%d].S = append(n[%d].S, n[%d])\n", i, i, j)
+		case 5:
+			fmt.Fprintf(&b, "\tif n[%d].M == nil {\n\t\tn[%d].M = map[string]*DR{}\n\t}\n\tn[%d].M[\"k%d\"] = n[%d]\n", i, i, i, j, j)
+		case 6:
+			fmt.Fprintf(&b, "\tn[%d].I = %s\n", i, []string{fmt.Sprintf("n[%d]", j), fmt.Sprintf("&n[%d].Hdr", j), fmt.Sprintf("n[%d].Hdr", j), fmt.Sprintf("&n[%d].Arr", j)}[rapid.IntRange(0, 3).Draw(t, "ikind")])
+		case 7:
+			fmt.Fprintf(&b, "\tn[%d].Hdr.ID = %d\n", i, rapid.IntRange(0, 3).Draw(t, "id"))
+		}
+	}
+	r := rapid.IntRange(0, k-1).Draw(t, "root")
+	nv := rapid.IntRange(3, 6).Draw(t, "gvariants")
+	b.WriteString("\tswitch variant {\n")
+	for v := 1; v <= nv; v++ {
+		i := r // half of the variants change the node the root points to (and into)
+		if rapid.Bool().Draw(t, "mother") {
+			i = rapid.IntRange(0, k-1).Draw(t, "mnode")
+		}
+		fmt.Fprintf(&b, "\tcase %d:\n", v)
+		switch rapid.SampledFrom([]int{0, 0, 1, 1, 2, 3, 4, 5}).Draw(t, "mkind") {
+		case 0:
+			fmt.Fprintf(&b, "\t\tn[%d].Body = \"other\"\n", i)
+		case 1:
+			fmt.Fprintf(&b, "\t\tn[%d].Arr[%d] = 99\n", i, rapid.IntRange(0, 2).Draw(t, "melem"))
+		case 2:
+			fmt.Fprintf(&b, "\t\tn[%d].Hdr.Tag = \"u\"\n", i)
+		case 3:
+			fmt.Fprintf(&b, "\t\tn[%d].Hdr.ID = 77\n", i)
+		case 4:
+			fmt.Fprintf(&b, "\t\tn[%d].Next = n[%d]\n", i, rapid.IntRange(0, k-1).Draw(t, "mnext"))
+		case 5:
+			fmt.Fprintf(&b, "\t\tn[%d].Next = &DR{Hdr: n[%d].Hdr, Body: n[%d].Body, Arr: n[%d].Arr}\n", i, i, i, i) // an equal copy instead of a shared node
+		}
+	}
+	fmt.Fprintf(&b, "\t}\n\treturn DRootA{A: &n[%d].Hdr, C: &n[%d].Arr[0], D: &n[%d].Arr, B: n[%d], L: n}, DRootB{B: n[%d], A: &n[%d].Hdr, D: &n[%d].Arr, C: &n[%d].Arr[0]}\n}\n\n", r, r, r, r, r, r, r, r)
+	var c strings.Builder
+	fmt.Fprintf(&c, "\t{\n\t\ta0, b0 := buildG%d(0)\n\t\ta0x, b0x := buildG%d(0)\n\t\tdeq(%d, \"graph same A\", a0, a0x)\n\t\tdeq(%d, \"graph same B\", b0, b0x)\n\t\tdeq(%d, \"graph self\", &a0, &a0)\n", u, u, u, u, u)
+	for v := 1; v <= nv; v++ {
+		fmt.Fprintf(&c, "\t\t{\n\t\t\tav, bv := buildG%d(%d)\n\t\t\tdeq(%d, \"graph v%d A\", a0, av)\n\t\t\tdeq(%d, \"graph v%d B\", b0, bv)\n\t\t\tdeq(%d, \"graph v%d pA\", &a0, &av)\n\t\t\tdeq(%d, \"graph v%d node\", a0.B, av.B)\n\t\t\tdeq(%d, \"graph v%d list\", a0.L, av.L)\n\t\t}\n", u, v, u, v, u, v, u, v, u, v, u, v)
+	}
+	c.WriteString("\t}\n")
+	feats = []string{"deepequal_graph"}
+	for f := range fs {
+		feats = append(feats, f)
+	}
+	sort.Strings(feats)
+	return b.String(), c.String(), feats
 }
